@@ -337,7 +337,25 @@ func (r *Run) ExecBlock(bi int, b Block) {
 	if dt < 0 {
 		dt = 0
 	}
-	hdr := c.NextHeader(dt, b.Prop)
+	prop := b.Prop
+	if !r.Cfg.ProposerAny && c.Height >= 1 {
+		// trigger avoidance for a known finding: choose a proposer that the application can
+		// resolve to a validator (any member of the set may propose in reality; see DESIGN)
+		if vs := c.ValSets[c.Height+1]; vs != nil {
+			vals := SortedVals(vs)
+			cctx := n.CommittedCtx(c)
+			for k := 0; k < len(vals); k++ {
+				idx := (((prop + k) % len(vals)) + len(vals)) % len(vals)
+				if n.App.StakingKeeper.ValidatorByConsAddr(cctx, sdk.ConsAddress(vals[idx].Address)) != nil {
+					prop = idx
+					break
+				}
+			}
+		}
+	} else if r.Cfg.ProposerAny {
+		r.Probe("proposer_unrestricted")
+	}
+	hdr := c.NextHeader(dt, prop)
 	h := hdr.Height
 	// votes
 	absent := map[string]bool{}
